@@ -149,7 +149,7 @@ func solveVC(vc *VC, o solveOpts) []*Result {
 	}
 	// pass 0: integer/bit-vector conversions uninterpreted (z3 smt.bv.enable_int2bv=false) - a sound
 	// weakening that makes the many obligations that never look inside a conversion cheap
-	if os.Getenv("MQVC_NOPASS0") == "" {
+	if os.Getenv("MQVC_NOPASS0") == "" && (vc.w.prop == "C03" || os.Getenv("MQVC_PASS0") != "") {
 		runPass(solverSpec{"z3-new/uf", func(f string, ms int) []string {
 			return []string{"z3-new", "smt.bv.enable_int2bv=false", fmt.Sprintf("-t:%d", ms), f}
 		}}, 1000, nil, true)
@@ -170,11 +170,19 @@ func solveVC(vc *VC, o solveOpts) []*Result {
 		var cvErr []string
 		var pw sync.WaitGroup
 		pw.Add(1)
+		// (cvc5 only where it pays: the decoder conformance VCs of C03; elsewhere loading the script costs more than it decides)
+		useCvc5 := vc.w.prop == "C03" || os.Getenv("MQVC_PASS1_CVC5") != ""
+		z3ms := pass1
 		go func() {
 			defer pw.Done()
-			cvStatus, cvErr = runPassOn(vc, solvers[2], pass1+2000, only, shards, hard, o)
+			if useCvc5 {
+				cvStatus, cvErr = runPassOn(vc, solvers[2], pass1+2000, only, shards, hard, o)
+			}
 		}()
-		runPass(solvers[0], pass1/2, only, false)
+		if useCvc5 {
+			z3ms = pass1 / 2
+		}
+		runPass(solvers[0], z3ms, only, false)
 		pw.Wait()
 		for k, v := range saved {
 			if _, ok := status[k]; !ok || v == "unsat" {
